@@ -505,3 +505,13 @@ package cluster
 //@ loop 1 invariant forall(j, 0, $i, opUnsigned(d.Operators[j]) || opSigned(eth1, d, d.Operators[j]))
 //@ loop 1 invariant (noOpSigs == 0 ==> forall(j, 0, $i, !opUnsigned(d.Operators[j]))) && (noOpSigs == $i ==> forall(j, 0, $i, opUnsigned(d.Operators[j])))
 //@ canary result != nil
+
+// Share index = position of the peer among the definition's operators + 1 (C11: the ceremony, the lock's public shares
+// and the stored key shares are all keyed by it).
+//@ pure Definition.Peers
+//@ func (d Definition) NodeIdx
+//@ props C11 C12
+//@ ensures r1 == nil ==> r0.ShareIdx == r0.PeerIdx + 1 && 0 <= r0.PeerIdx && r0.PeerIdx < len(res(0, d.Peers())) && res(0, d.Peers())[r0.PeerIdx].ID == pID
+//@ ensures r1 == nil ==> forall(j, 0, r0.PeerIdx, res(0, d.Peers())[j].ID != pID)
+//@ loop 1 invariant forall(j, 0, $i, peers[j].ID != pID)
+
